@@ -45,35 +45,6 @@ pub mod error {
 ///      "type": "integer",
 ///      "format": "uint8"
 ///    },
-///    "list": {
-///      "type": "array",
-///      "items": {
-///        "type": "integer",
-///        "format": "uint8"
-///      }
-///    },
-///    "pair": {
-///      "oneOf": [
-///        {
-///          "type": "array",
-///          "items": [
-///            {
-///              "type": "boolean"
-///            },
-///            {
-///              "type": "integer",
-///              "maximum": 20.0,
-///              "minimum": 10.0
-///            }
-///          ],
-///          "maxItems": 2,
-///          "minItems": 2
-///        },
-///        {
-///          "type": "null"
-///        }
-///      ]
-///    },
 ///    "span": {
 ///      "type": "array",
 ///      "items": [
@@ -86,15 +57,6 @@ pub mod error {
 ///      ],
 ///      "maxItems": 2,
 ///      "minItems": 2
-///    },
-///    "tags": {
-///      "type": [
-///        "array",
-///        "null"
-///      ],
-///      "items": {
-///        "type": "string"
-///      }
 ///    }
 ///  }
 ///}
@@ -103,14 +65,8 @@ pub mod error {
 #[derive(::serde::Deserialize, ::serde::Serialize, Clone, Debug)]
 pub struct Record {
     pub id: u8,
-    #[serde(default, skip_serializing_if = "::std::vec::Vec::is_empty")]
-    pub list: ::std::vec::Vec<u8>,
-    #[serde(default, skip_serializing_if = "::std::option::Option::is_none")]
-    pub pair: ::std::option::Option<(bool, i64)>,
     #[serde(default, skip_serializing_if = "::std::option::Option::is_none")]
     pub span: ::std::option::Option<(i64, ::std::string::String)>,
-    #[serde(default, skip_serializing_if = "::std::option::Option::is_none")]
-    pub tags: ::std::option::Option<::std::vec::Vec<::std::string::String>>,
 }
 impl ::std::convert::From<&Record> for Record {
     fn from(value: &Record) -> Self {
